@@ -147,7 +147,12 @@ func HeaderValue(t *rapid.T, fold bool) (string, bool) {
 			a = "x"
 		}
 		b := rapid.SampledFrom([]string{"cont", "more words", "5", "k=v", "tail\ttab"}).Draw(t, "foldTail")
-		return a + sep + b, true
+		v := a + sep + b
+		// further continuation lines: a value folded over three or four lines
+		for k := rapid.IntRange(0, 3).Draw(t, "moreFolds"); k > 1; k-- {
+			v += rapid.SampledFrom([]string{"\r\n ", "\r\n\t", "\r\n  "}).Draw(t, "foldSep") + rapid.SampledFrom([]string{"gamma", "x y", "7"}).Draw(t, "foldTail")
+		}
+		return v, true
 	}
 	return strings.Join(parts, " "), false
 }
